@@ -361,3 +361,159 @@ Proof.
   - unfold S, W, pv, Mk, P, D, E. apply (S_entry ex d L X y HX Hy i j Hi Hj).
   - f_equal. unfold E. apply (emb_row L X i Hi).
 Qed.
+
+(* ================================================================== MLKR ================================================== *)
+From MLgen Require Import Src_mlkr.
+
+(* the symmetrisation step, for any W given by its entries *)
+Lemma sym_fill_entry n (W : Rm) (Wf : nat -> nat -> R) :
+  length W = n -> Forall (fun r : Rv => length r = n) W ->
+  (forall i j, (i < n)%nat -> (j < n)%nat -> @nn_entry ROps W i j = Wf i j) ->
+  forall i j, (i < n)%nat -> (j < n)%nat ->
+  @nn_entry ROps (@nn_fill_diag ROps (@nn_add_m_mt ROps W) (@nn_neg_v ROps (@nn_sum_cols ROps n W))) i j =
+  (if Nat.eqb i j then - @isum ROps n (fun q => Wf q j) else Wf i j + Wf j i).
+Proof.
+  intros HWn HWr HWe i j Hi Hj. subst n. unfold nn_fill_diag, nn_add_m_mt. rewrite tab_length. rewrite tab_entry by assumption.
+  destruct (Nat.eqb i j) eqn:E.
+  - apply Nat.eqb_eq in E. subst j. rewrite nth_vneg. cbn [oopp ROps]. f_equal.
+    etransitivity; [apply (sum_cols_nth (length W) i W HWr)|].
+    etransitivity; [apply (vsum_map_nth_rows (fun r => nth i r 0) W)|].
+    apply isum_ext. intros q Hq. apply (HWe q i Hq Hi).
+  - rewrite tab_entry by assumption. rewrite !HWe by assumption. reflexivity.
+Qed.
+
+Lemma vsum_map_nth_vec (g : R -> R) : forall (v : Rv), @vsum ROps (map g v) = @isum ROps (length v) (fun i => g (nth i v 0)).
+Proof.
+  unfold isum. intro v. f_equal. induction v as [|a v IH]; [reflexivity|]. cbn [length seq map nth]. f_equal.
+  rewrite IH. rewrite <- seq_shift, map_map. reflexivity.
+Qed.
+
+Lemma isum_as_rsumf n (f : nat -> R) : @isum ROps n f = rsumf f (seq 0 n).
+Proof. unfold isum. apply vsum_map_rsumf. Qed.
+
+Ltac rwR H := let Q := fresh "Q" in pose proof H as Q; change (T ROps) with R in Q |- *; rewrite Q; clear Q.
+
+Section StageM.
+  Variables (ex : R -> R) (k d : nat) (L X : Rm) (yv : Rv).
+  Hypotheses (HL : wfmR k d L) (HX : Forall (wfvR d) X) (Hy : length yv = length X).
+  Notation n := (length X).
+  Let D := @nn_pairwise_sq ROps (@nn_dot_mt ROps X L).
+  Let P := @nn_softmax_neg_offdiag ROps ex D.
+  Let yh := @nn_dot_mv ROps P yv.
+  Let yd := @nn_sub_vv ROps yh yv.
+  Let W := @nn_mul_mm ROps (@nn_scale_rows ROps yd P) (@nn_row_minus_col ROps yv yh).
+
+  Lemma Pn_m : length P = n. Proof. apply (P_length ex L X). Qed.
+  Lemma P_row_m i : (i < n)%nat -> nth i P [] = map (fun j => @pp ROps ex L X i j) (seq 0 n).
+  Proof. intro Hi. apply (P_row ex d L X (map (fun _ => 0%Z) X) HX (map_length _ X) i Hi). Qed.
+  Lemma yh_len : length yh = n. Proof. unfold yh, nn_dot_mv. etransitivity; [apply mvmul_length | apply Pn_m]. Qed.
+  Lemma yh_nth i : (i < n)%nat -> nth i yh 0 = @yhat ROps ex L X yv i.
+  Proof.
+    intro Hi. unfold yh, nn_dot_mv.
+    etransitivity; [apply (mvmul_nth P yv i); rwR Pn_m; exact Hi|].
+    rwR (P_row_m i Hi).
+    rewrite (vdot_isum _ yv n) by (rewrite ?map_length, ?seq_length; auto).
+    unfold yhat. rewrite isum_as_rsumf. apply rsumf_ext. intros j Hj. apply in_seq in Hj.
+    assert (Hj': (j < n)%nat) by (destruct Hj as [_ Hj']; exact Hj').
+    rwR (nth_map_seq (fun j0 => @pp ROps ex L X i j0) 0 n 0 j Hj'). reflexivity.
+  Qed.
+  Lemma yhy : length yh = length yv. Proof. etransitivity; [apply yh_len | symmetry; exact Hy]. Qed.
+  Lemma yd_len : length yd = n.
+  Proof. unfold yd, nn_sub_vv. etransitivity; [apply vsub_length; apply yhy | apply yh_len]. Qed.
+  Lemma yd_nth i : (i < n)%nat -> nth i yd 0 = @yhat ROps ex L X yv i - nth i yv 0.
+  Proof.
+    intro Hi. unfold yd, nn_sub_vv. etransitivity; [apply (nth_vsub yh yv i yhy)|].
+    f_equal. apply (yh_nth i Hi).
+  Qed.
+
+  (* the cost handed to the optimiser *)
+  Theorem mlkr_src_loss : fst (@mlkr_src ROps ex L X yv) = @mlkr_loss ROps ex L X yv.
+  Proof.
+    unfold mlkr_src. cbn [fst]. fold D. fold P. fold yh. fold yd. unfold nn_sum_v, nn_square_v.
+    etransitivity; [apply (vsum_map_nth_vec (fun a => a * a) yd)|].
+    transitivity (@isum ROps n (fun i => nth i yd 0 * nth i yd 0)); [f_equal; apply yd_len|].
+    unfold mlkr_loss. apply isum_ext. intros i Hi. rwR (yd_nth i Hi). reflexivity.
+  Qed.
+
+  Lemma SR_len : length (@nn_scale_rows ROps yd P) = n.
+  Proof.
+    unfold nn_scale_rows. etransitivity; [apply map2_length | apply yd_len].
+    etransitivity; [apply yd_len | symmetry; apply Pn_m].
+  Qed.
+  Lemma RC_len : length (@nn_row_minus_col ROps yv yh) = n.
+  Proof. unfold nn_row_minus_col. etransitivity; [apply tab_length | apply yh_len]. Qed.
+  Lemma W_len : length W = n.
+  Proof.
+    unfold W, nn_mul_mm. etransitivity; [apply map2_length | apply SR_len].
+    etransitivity; [apply SR_len | symmetry; apply RC_len].
+  Qed.
+  Lemma W_row i : (i < n)%nat ->
+    nth i W [] = map2 (omul ROps) (vscaleR (nth i yd 0) (nth i P [])) (map (fun j => osub ROps (nth j yv 0) (nth i yh 0)) (seq 0 n)).
+  Proof.
+    intro Hi. unfold W, nn_mul_mm.
+    assert (H1: (i < length (@nn_scale_rows ROps yd P))%nat) by (rwR SR_len; exact Hi).
+    assert (H2: (i < length (@nn_row_minus_col ROps yv yh))%nat) by (rwR RC_len; exact Hi).
+    etransitivity; [apply (nth_map2 (map2 (omul ROps)) [] [] [] _ _ i H1 H2)|].
+    apply f_equal2.
+    - unfold nn_scale_rows. apply (nth_map2 vscaleR 0 [] []); [rwR yd_len | rwR Pn_m]; exact Hi.
+    - unfold nn_row_minus_col.
+      etransitivity; [apply tab_row; rwR yh_len; exact Hi|]. f_equal. f_equal. exact Hy.
+  Qed.
+  Lemma W_entry_m i j : (i < n)%nat -> (j < n)%nat -> @nn_entry ROps W i j = @Wm ROps ex L X yv i j.
+  Proof.
+    intros Hi Hj. unfold nn_entry. rwR (W_row i Hi). rwR (P_row_m i Hi).
+    etransitivity; [apply (nth_map2 (omul ROps) 0 0 0); [rewrite vscale_length, map_length, seq_length | rewrite map_length, seq_length]; exact Hj|].
+    rwR (nth_vscale (nth i yd 0) (map (fun j0 => @pp ROps ex L X i j0) (seq 0 n)) j).
+    rwR (nth_map_seq (fun j0 => @pp ROps ex L X i j0) 0 n 0 j Hj).
+    rwR (nth_map_seq (fun j0 => osub ROps (nth j0 yv 0) (nth i yh 0)) 0 n 0 j Hj).
+    rwR (yd_nth i Hi). rwR (yh_nth i Hi).
+    unfold Wm. cbn [Nat.add omul osub o0 ROps]. rsimp. ring.
+  Qed.
+  Lemma W_rows_len_m : Forall (fun r : Rv => length r = n) W.
+  Proof.
+    apply Forall_forall. intros r Hr. apply (In_nth _ _ []) in Hr. destruct Hr as [i [Hi0 Hr]]. subst r.
+    assert (Hi: (i < n)%nat) by (rewrite <- W_len; exact Hi0).
+    rwR (W_row i Hi). rwR (P_row_m i Hi).
+    etransitivity; [apply map2_length; rewrite vscale_length, !map_length, !seq_length; reflexivity|].
+    rewrite vscale_length, map_length, seq_length. reflexivity.
+  Qed.
+
+  Theorem S_entry_m i j : (i < n)%nat -> (j < n)%nat ->
+    @nn_entry ROps (@nn_fill_diag ROps (@nn_add_m_mt ROps W) (@nn_neg_v ROps (@nn_sum_cols ROps n W))) i j = @Sm ROps ex L X yv i j.
+  Proof.
+    intros Hi Hj.
+    etransitivity; [apply (sym_fill_entry n W (@Wm ROps ex L X yv) W_len W_rows_len_m W_entry_m i j Hi Hj)|].
+    unfold Sm. destruct (Nat.eqb i j); reflexivity.
+  Qed.
+End StageM.
+
+Theorem mlkr_src_grad (ex : R -> R) (k d : nat) (L X : Rm) (yv : Rv) :
+  wfmR k d L -> Forall (wfvR d) X -> (0 < length X)%nat -> length yv = length X ->
+  snd (@mlkr_src ROps ex L X yv) = @mlkr_grad ROps ex k d L X yv.
+Proof.
+  intros HL HX Hn Hy. unfold mlkr_src. cbn [snd].
+  set (E := @nn_dot_mt ROps X L).
+  unfold nn_mul_sm.
+  match goal with |- mscaleR _ (nn_dot_mm (nn_dot_tm _ ?s) _) = _ => set (S := s) end.
+  assert (EL: length E = length X) by (unfold E, nn_dot_mt; apply map_length).
+  assert (EW: Forall (wfvR k) E).
+  { unfold E, nn_dot_mt. apply Forall_forall. intros r Hr. apply in_map_iff in Hr as [x [<- _]]. unfold wfv. rewrite map_length. apply HL. }
+  assert (SW: wfmR (length X) (length X) S).
+  { unfold S, nn_fill_diag.
+    match goal with |- context [nn_add_m_mt ?w] => assert (WL: length w = length X) by (apply (W_len ex L X yv Hy)) end.
+    match goal with |- context [nn_add_m_mt ?w] => assert (AL: length (@nn_add_m_mt ROps w) = length X) by (unfold nn_add_m_mt; rewrite tab_length; exact WL) end.
+    rewrite AL. unfold nn_tab. split.
+    - rewrite map_length, seq_length. reflexivity.
+    - apply Forall_forall. intros r Hr. apply in_map_iff in Hr as [i [<- _]]. unfold wfv. rewrite map_length, seq_length. reflexivity. }
+  rewrite (dot_tm_mm_as_msum (length X) k d E S X Hn EL EW SW eq_refl HX).
+  unfold mlkr_grad. f_equal.
+  apply msum_ext. intros i Hi. apply msum_ext. intros j Hj. f_equal.
+  - unfold S, E. apply (S_entry_m ex d L X yv HX Hy i j Hi Hj).
+  - f_equal. unfold E. apply (emb_row L X i Hi).
+Qed.
+
+(* what MLKR.fit does with the loss: one L-BFGS-B call on it, result reshaped into components_ *)
+Lemma mlkr_skeleton_ok : mlkr_skeleton =
+  [ "res = minimize(self._loss, A.ravel(), (X, y), method='L-BFGS-B', jac=True, tol=self.tol, options=dict(maxiter=self.max_iter))"
+  ; "self.components_ = res.x.reshape(A.shape)" ]%string.
+Proof. reflexivity. Qed.
